@@ -94,8 +94,11 @@ func mutateInsert(current, value interface{}) (interface{}, interface{}) {
 		return v.Interface(), nil
 	}
 	if vc.Kind() == reflect.Map && vv.Kind() == reflect.Map {
-		if vc.IsNil() && vv.Len() > 0 {
-			return value, value
+		if vc.IsNil() {
+			// do not alias the mutation value: later mutations of the same
+			// column are applied in place on the current value
+			vc = reflect.MakeMap(vc.Type())
+			current = vc.Interface()
 		}
 		diff := reflect.MakeMap(vc.Type())
 		iter := vv.MapRange()
